@@ -211,7 +211,28 @@ func runC15(c *Ctx, i int, r *rand.Rand) {
 	for k := 0; k < n; k++ {
 		var e *Exec
 		kind := ""
-		switch r.IntN(6) {
+		switch r.IntN(8) {
+		case 6:
+			// a message that fails inside the decompressor or inflates past the limit (request side)
+			s := genScenario(r, ScenOpts{Cfg: cfg}, "h")
+			if s == nil {
+				continue
+			}
+			raw := hostileCompressedRequest(r, s, pick(r, []string{"corrupt", "bomb"}), int(cfg.Limit))
+			if raw == nil {
+				continue
+			}
+			s.Req.UseRawBody, s.Req.RawBody = true, raw
+			e, _ = runRPC(cfg, s.Req, s.Script, r, &execOpts{Transcoder: tUsed})
+			kind = "decompress-fault"
+		case 7:
+			s := genScenario(r, ScenOpts{Cfg: cfg}, "h")
+			if s == nil {
+				continue
+			}
+			hostileCompressedResponse(r, s.Script, pick(r, []string{"corrupt", "bomb"}), int(cfg.Limit))
+			e, _ = runRPC(cfg, s.Req, s.Script, r, &execOpts{Transcoder: tUsed})
+			kind = "decompress-fault-response"
 		case 0, 1, 2:
 			cc := genC11(r)
 			if cc == nil {
